@@ -1,7 +1,8 @@
 (* C06 -- Evicted callback fires exactly once per removed entry, with that very entry.
    Sequential part (every history, every clock schedule).  The interleaved part is props/C06c.v. *)
 From CacheV Require Import Base SpecMap Client CacheModel CacheOfModel Ops SpecTTL.
-From CacheV.proofs Require Import C06_seq C06_hist C12_twins.
+From CacheV Require Import Conc.
+From CacheV.proofs Require Import C06_seq C06_hist C12_twins C01_sim C02_good C02_methods C02_lin.
 
 (* At every call of every history on Cache: the callbacks fired by the call are
    exactly the entries the call physically removed (Delete/GetAndDelete: the entry
@@ -30,6 +31,24 @@ Theorem C06_cacheof_same :
     step_cacheof eqd zero m o = step_cache eqd zero m o.
 Proof. exact @twins_step. Qed.
 Print Assumptions C06_cacheof_same.
+
+(* Interleaved (any number of threads, EVERY schedule at map-call granularity,
+   whatever Range's snapshots return): for every thread, the per-thread monitor is
+   never violated.  The monitor appends to the thread's debt every entry that a
+   map step of its current Delete / GetAndDelete / DeleteExpired call physically
+   removed (ghost label LGone), demands of every callback event that it is the
+   callback in force and pays the OLDEST debt with exactly that key and value,
+   and demands at the response that nothing is owed: so every removal is
+   reported once, with that very entry, and nothing else is ever reported -- no
+   stale snapshot value, no double delivery by overlapping passes. *)
+Theorem C06_concurrent :
+  forall (K V : Type) (eqd : forall a b : K, {a = b} + {a <> b}) (zero : V) (NOW DFLT : Z) (CB : cbid)
+         (P0 L0 : amap K (item V)) (todo : nat -> list (cop K V)) sched t,
+    Rm eqd NOW DFLT CB P0 L0 -> (forall t, Forall conc_ok (todo t)) ->
+    mon_accepts CB t mon_idle
+      (snd (crun eqd (prog_cache eqd zero) NOW DFLT CB (cinit P0 todo) sched)).
+Proof. exact @cache_monitored. Qed.
+Print Assumptions C06_concurrent.
 
 (* the callback runs outside the map call: a closure (code under the bucket
    lock) has no way to fire -- its only effects are [aux] (captured variables,
